@@ -13,5 +13,6 @@ Lemma tr_sound_lemma :
   (forall pid tid cs st, emit_chunks_of gen_tr pid tid cs st = emit_chunks pid tid cs st) /\
   (forall b e, is_long_of gen_tr b e = is_long b e) /\
   tr_chunk gen_tr = chunk_size /\ tr_reserve gen_tr = chunk_size /\
-  (forall r id, reg_attach_of gen_tr r id = reg_attach r id).
+  (forall r id, reg_attach_of gen_tr r id = reg_attach r id) /\
+  (forall c p text, sc_lookup_of gen_tr c p text = Some (sc_lookup c p text)).
 Proof. apply tr_match_sound. exact tr_match_lemma. Qed.
